@@ -37,11 +37,20 @@ func s2RunSteps(c *fw.Case, prop string, p *engine.Profile, steps []engine.Step)
 	defer w.Close()
 	r := &lockedRng{r: c.Rng.Fork("delay")}
 	mode := c.Rng.Intn(3)
-	if mode > 0 || p.PSlowPlugin > 0 {
+	if mode > 0 || p.PSlowPlugin > 0 || p.PStaleWriter > 0 {
 		w.SetDelay(func(kind string) {
 			if kind == "plugin.Validate" && p.PSlowPlugin > 0 && r.Intn(100) < p.PSlowPlugin {
 				time.Sleep(time.Duration(5+r.Intn(35)) * time.Millisecond)
 				return
+			}
+			if kind == "cfg.UpdateStatus" && p.PStaleWriter > 0 {
+				// a status writer (election, re-sync bookkeeping) that is pre-empted between its read and its write:
+				// whatever the apply path wrote meanwhile must survive
+				if t := world.CurrentTask(); (strings.HasPrefix(t, "mastership:") || strings.HasPrefix(t, "configuration:")) && r.Intn(100) < p.PStaleWriter {
+					c.Count("status_writers_held_between_read_and_write", 1)
+					time.Sleep(time.Duration(5+r.Intn(35)) * time.Millisecond)
+					return
+				}
 			}
 			if mode == 0 {
 				return
